@@ -166,8 +166,9 @@ Definition genuine_bytes (q : request) (r : reply) : bool :=
 Definition genuine (q : request) (r : reply) : bool :=
   genuine_bytes q r && imprint_alg_match q (r_stamp r).
 (* legacy style: no nonce, no status; the token must be a valid signature over exactly the signature value *)
+Definition delivered_legacy (r : reply) : bool := r_transport r && (r_http r =? 200) && r_parses r.
 Definition genuine_legacy (q : request) (r : reply) : bool :=
-  delivered r && st_has_content (r_stamp r) && st_sig_ok (r_stamp r) && bytes_eqb (st_hashed (r_stamp r)) (q_sig q).
+  delivered_legacy r && st_has_content (r_stamp r) && st_sig_ok (r_stamp r) && bytes_eqb (st_hashed (r_stamp r)) (q_sig q).
 
 (* "otherwise the next configured authority is tried, and if all fail the signing fails" *)
 Fixpoint spec_client (good : reply -> bool) (rs : list reply) (i : Z) : option stamp * list Z :=
